@@ -7,6 +7,7 @@
 //!           1 consumed len body..    the buffer was advanced (Ok(Some(_)) or Err(InvalidContent))
 //!           2                        Err(InvalidHeaders)
 //!           3                        panic
+//!           4 consumed len body..    Ok(None) although the buffer was advanced (must not happen)
 //!   2 k n1 c1.. n2 c2.. ..          tokio_util::codec::FramedRead<_, LSCodec> over an AsyncRead that
 //!                                   yields exactly the k chunks (empty chunks are not reads), then EOF
 //!        -> count events..           0 len body..  Some(Ok(message))
@@ -50,7 +51,28 @@ fn fail(msg: &str) -> ! {
     std::process::exit(3)
 }
 
+/// `span` holds the frames consumed since the previous item; all but the last one were consumed
+/// silently (must not happen, see output 4 of command 1).  Returns the offset of the last frame,
+/// found by letting the codec itself consume the span frame by frame.
+fn last_frame_start(span: &[u8]) -> usize {
+    // padding: decode refuses buffers shorter than 21 bytes; more bytes do not change what is consumed
+    const PAD: usize = 32;
+    let mut scratch = BytesMut::from(span);
+    scratch.extend_from_slice(&[b' '; PAD]);
+    loop {
+        let before = scratch.len();
+        let _ = catch_unwind(AssertUnwindSafe(|| LSCodec.decode(&mut scratch)));
+        if scratch.len() == PAD {
+            return span.len() + PAD - before;
+        }
+        if scratch.len() == before || scratch.len() < PAD {
+            fail("cannot locate the frame of an item");
+        }
+    }
+}
+
 fn push_body(out: &mut Vec<u64>, frame: &[u8]) {
+    let frame = &frame[last_frame_start(frame)..];
     let body = &frame[content_start(frame)..];
     out.push(body.len() as u64);
     out.extend(body.iter().map(|b| *b as u64));
@@ -64,11 +86,12 @@ fn run_decode(args: &[u64]) -> Vec<u64> {
     let consumed = before - buf.len();
     match res {
         Err(_) => vec![3],
+        Ok(Ok(None)) if consumed == 0 => vec![0],
         Ok(Ok(None)) => {
-            if consumed != 0 {
-                fail("Ok(None) but the buffer was advanced");
-            }
-            vec![0]
+            // "need more bytes" although a frame was consumed (the defect repaired by /repo e5c7771)
+            let mut out = vec![4, consumed as u64];
+            push_body(&mut out, &bytes[..consumed]);
+            out
         }
         Ok(Err(CodecError::InvalidHeaders)) => {
             if consumed != 0 {
